@@ -5,6 +5,7 @@
 package runtime
 
 import (
+	"bytes"
 	"context"
 	"errors"
 	"io"
@@ -514,6 +515,27 @@ func (vm *VM) fieldByIndex(s reflect.Value, i uint8) reflect.Value {
 	return v
 }
 
+// endMacro ends the call of the macro fn, whose body has been rendered with
+// r, returning to call: if the body has been rendered apart, it stores the
+// rendered string as result of the macro or writes the Markdown, converted to
+// HTML, on the renderer of call. The frame pointer must be that of the macro.
+func (vm *VM) endMacro(call callFrame, fn *Function, r *renderer) {
+	if call.renderer == r {
+		return
+	}
+	b := call.cl.fn.Body[call.pc-2].B
+	if b == ReturnString {
+		out := r.Out().(*strings.Builder)
+		vm.setString(1, out.String())
+	} else if fn.Format == ast.FormatMarkdown && ast.Format(b) == ast.FormatHTML {
+		out := r.Out().(*bytes.Buffer)
+		err := vm.env.conv(out.Bytes(), call.renderer.out)
+		if err != nil {
+			panic(outError{err})
+		}
+	}
+}
+
 func (vm *VM) finalize(regs [][2]int8) {
 	for _, reg := range regs {
 		vm.setFromReflectValue(reg[1], vm.generalIndirect(reg[0]))
@@ -558,6 +580,13 @@ func (vm *VM) nextCall() bool {
 		switch call.status {
 		case started:
 			// A call is returned, continue with the previous call.
+			if i+1 < len(vm.calls) {
+				// The call has returned after its deferred calls.
+				if ret := vm.calls[i+1]; ret.status == returned && ret.cl.fn != nil && ret.cl.fn.Macro {
+					vm.fp = ret.fp
+					vm.endMacro(call, ret.cl.fn, ret.renderer)
+				}
+			}
 		case tailed:
 			// A tail call is returned, continue with the previous call.
 			continue
